@@ -381,4 +381,16 @@ def step (cfg : Cfg) (w : World) (a : Action) : World × Outcome :=
 /-- run a list of actions -/
 def run (cfg : Cfg) (w : World) (as : List Action) : World := as.foldl (fun w a => (step cfg w a).1) w
 
+/-- `f` is suspended and nothing can ever resume it: no task, timer or channel registration carries its current
+    sched_id (channels `0..nch-1`). -/
+def lostWakeup (w : World) (f nch : Nat) : Bool :=
+  (w.fibers f).status == .pending
+  && w.runq.all (fun t => !(t.fiber == f && t.expected == (w.fibers f).sched))
+  && w.timers.all (fun t => !(t.fiber == f && t.sched == (w.fibers f).sched))
+  && (List.range nch).all (fun c =>
+        ((w.chans c).readPending ++ (w.chans c).writePending).all (fun p => !(p.fiber == f && p.live w.fibers)))
+
+/-- the harness's start state: channels with the given capacities, main fiber 0 scheduled from outside the loop -/
+def World.start (limits : Nat → Nat) : World := schedule (World.init limits) 0 .nil
+
 end JanetModel.Ev
